@@ -475,6 +475,7 @@ type loopMods struct {
 	locals  map[string]*ssa.Alloc
 	regions map[string]bool
 	all     bool
+	reads   bool // the body may read input (the ghost tape cursor may move)
 }
 
 func (x *Exec) loopModSet(li *loopInfo) *loopMods {
@@ -513,6 +514,7 @@ func (x *Exec) loopModSet(li *loopInfo) *loopMods {
 	}
 	lm.regions = ms.Regions
 	lm.all = ms.All
+	lm.reads = ms.Reads || ms.All
 	return lm
 }
 
@@ -822,6 +824,9 @@ func (x *Exec) enterLoop(li *loopInfo, edges []edgeState) *State {
 			sv := x.val(st, rng.X)
 			x.c.assume(and(sx("<=", "0", n), sx("<=", n, sx("gstr_len", sv.S))))
 		}
+	}
+	if lm.reads && !lm.all {
+		x.c.havocTpos(st, x.c.region(st, "$tpos"))
 	}
 	if lm.all {
 		x.c.havocAll(st)
